@@ -4,6 +4,7 @@ on the same run; unmatched sites fail closed."""
 import re
 
 from ..mir import Mir, Exprs, canon, strip_transparent, Call, natural_loops, short_path, control_deps_transitive, parse_at, change_flag_condition
+from ..roles import roles_of
 from ..report import Result, finish
 
 PANIC_FNS = ("std::rt::panic_fmt", "core::panicking::panic", "core::panicking::panic_fmt", "std::rt::begin_panic", "core::panicking::panic_display",
@@ -193,12 +194,13 @@ def run_rules(mir, res, cx):
                     elif change_flag_condition(ce) is not None:
                         # boolean flag returned by a local step function
                         role = "fixpoint(change-flag)"
-            fkey = fn.file.rsplit("/", 1)[-1]
+            fkey = "crate"
             W_EXPECT[(fkey, role)] = W_EXPECT.get((fkey, role), 0) + 1
             res.inst(LOOPS, key + "|" + str(role), fn.where, True, "reviewed role: %s" % role)
             if role is None or role == "contains-without-progress":
                 res.violate(LOOPS, key + "|unclassified", fn.where, "loop in %s is neither a `for` over a finite iterator nor a reviewed worklist/fixpoint loop (exit conditions: %s)%s" % (fn.path, [canon(ex.operand(fn.blocks[b]["term"]["discr"]))[:100] for (b, s_) in exits if fn.blocks[b]["term"]["k"] == "switch"], "; the tested name does not depend on a counter that advances in every iteration" if role else ""))
-    REVIEWED = {("mod.rs", "worklist(pop_front)"): 2, ("first_set_map.rs", "fixpoint(change-flag)"): 1, ("table_to_rust.rs", "fresh-name(contains)"): 1}
+    # counted over the crate, by role (not by file: moving a reviewed loop to another file changes nothing)
+    REVIEWED = {("crate", "worklist(pop_front)"): 2, ("crate", "fixpoint(change-flag)"): 1, ("crate", "fresh-name(contains)"): 1}
     for (fk, role), n in W_EXPECT.items():
         if role and role != "contains-without-progress" and n > REVIEWED.get((fk, role), 0):
             res.violate(LOOPS, "unreviewed|%s|%s" % (fk, role), fk, "%d loops of role %s in %s, %d were reviewed (A-L1..3): a new worklist/fixpoint loop needs a termination argument" % (n, role, fk, REVIEWED.get((fk, role), 0)))
@@ -217,13 +219,14 @@ def run_rules(mir, res, cx):
         if all(f.derived for f in fns):
             res.inst(REC, key, "", True, "derived impls on a recursive type (depth = nesting)")
             continue
-        if files == ["cst_to_ast.rs"] and all(f.trait == "std::convert::From" for f in fns):
+        if all(f.trait == "std::convert::From" and f.inputs and f.inputs[0]["head"].startswith("parser::") for f in fns):
             res.inst(REC, key, fns[0].where, True, "CST->AST conversion (depth = depth of the parsed tree)")
             continue
-        if files == ["type_to_string.rs"]:
+        if all((f.kind == "Closure" and mir.fns.get(f.root) in fns) or (f.kind == "Fn" and len(f.inputs) == 1 and f.inputs[0]["s"].startswith("&") and "data::ast::" in f.inputs[0]["s"] and (f.output or {}).get("s") == "std::string::String") for f in fns):
+            # a printer recursing over the parsed type tree by shared reference: depth = nesting of the type
             res.inst(REC, key, fns[0].where, True, "type printer (depth = type nesting)")
             continue
-        if files == ["tokenize.rs"]:
+        if cx.roles.tokenizer_type() is not None and all(f.impl is not None and f.impl["self_ty"]["head"] == cx.roles.tokenizer_type() for f in fns):
             ok, why = tokenizer_redispatch_bounded(mir, fns)
             res.inst(REC, key, fns[0].where, True, "tokenizer re-dispatch: %s" % why)
             if not ok:
@@ -273,22 +276,27 @@ def tokenizer_redispatch_bounded(mir, fns):
             return False, "%s: the call before the re-dispatch is not the (acyclic) flush" % h.path
         # the flush assigns the initial state (the one the constructor sets) on its success path
         initial = None
-        owner = None
+        # by role: the tokenizer struct is the flush's own `Self`; its state field is the one field of enum type
+        owner = flush.impl["self_ty"]["head"] if flush.impl else None
+        sfield = None
+        oadt = mir.adts.get(owner) or {}
+        if oadt.get("kind") == "Struct":
+            enum_fields = [f_["name"] for f_ in oadt["variants"][0]["fields"] if (mir.adts.get(f_["ty"].get("head")) or {}).get("kind") == "Enum"]
+            sfield = enum_fields[0] if len(enum_fields) == 1 else None
         for g in mir.fns.values():
-            if g.file != flush.file or g.derived:
+            if g.file != flush.file or g.derived or sfield is None:
                 continue
             for b in g.blocks:
                 for s_ in b["stmts"]:
-                    if s_["k"] == "assign" and s_["rv"]["k"] == "agg" and s_["rv"].get("ak") == "adt" and "state" in s_["rv"].get("fields", []) and s_["rv"]["adt"].endswith("::Tokenizer"):
-                        initial = canon(Exprs(g).operand(s_["rv"]["ops"][s_["rv"]["fields"].index("state")]))
-                        owner = s_["rv"]["adt"]
+                    if s_["k"] == "assign" and s_["rv"]["k"] == "agg" and s_["rv"].get("ak") == "adt" and sfield in s_["rv"].get("fields", []) and s_["rv"]["adt"] == owner:
+                        initial = canon(Exprs(g).operand(s_["rv"]["ops"][s_["rv"]["fields"].index(sfield)]))
         wrote = False
         fex = Exprs(flush)
         for b in flush.blocks:
             if b["cleanup"]:
                 continue
             for s_ in b["stmts"]:
-                if s_["k"] == "assign" and any(isinstance(e, dict) and e.get("name") == "state" and e.get("owner") == owner for e in s_["pl"]["p"]):
+                if s_["k"] == "assign" and any(isinstance(e, dict) and e.get("name") == sfield and e.get("owner") == owner for e in s_["pl"]["p"]):
                     if initial is not None and canon(fex.rvalue(s_["rv"], 0, ())) == initial:
                         wrote = True
         if not wrote:
@@ -314,7 +322,7 @@ def initial_handler(mir, d, c, initial):
     cdt = control_deps_transitive(d)
     a = None
     for adt in mir.adts.values():
-        if adt["path"].endswith("::State") and any(v["name"] == variant for v in adt["variants"]) and "tokenize" in adt["path"]:
+        if adt.get("kind") == "Enum" and any(v["name"] == variant for v in adt["variants"]) and parse_at((adt.get("span") or {}).get("at", "?:0:0: 0:0"))[0] == d.file:
             a = adt
     if a is None:
         return False
@@ -366,12 +374,12 @@ def discharge(mir, cx, fn, ex, cls, kind, bb, obj, desc, args, tests):
     nm = p.rsplit("::", 1)[-1]
     if kind == "panic":
         # D-dotlen: panic arm of the symbol accessor; D-gotoonce; D-tableidx guards
-        if re.search(r"Fieldset::get_symbol_ident$", fn.path) or is_symbol_accessor(fn):
+        if is_symbol_accessor(fn):
             ok, why = cx.dotlen_ok
             return "D-dotlen", ok, why
-        if any("HashMap::get(" in t_[0] and t_[1] == 1 for t_ in tests) and fn.name and "goto" in fn.name:
+        if any("HashMap::get(" in t_[0] and t_[1] == 1 for t_ in tests) and cx.roles.builder_set_goto is not None and fn.key == cx.roles.builder_set_goto.key:
             return "D-gotoonce", True, "one goto per (state, nonterminal): transitions are a set keyed by (from, symbol, to) of a deterministic automaton (A-goto)"
-        if any(re.match(r"^\(param\d+(\.0)? Ge Table::state_count\(param1\)\)$", t_[0]) for t_ in tests):
+        if any(re.match(r"^\(param\d+(\.0)? Ge %s\(param1\)\)$" % cx.roles.sp("table_state_count"), t_[0]) for t_ in tests):
             return "D-tableidx", cx.stateidx_ok[0], "explicit guard `state >= state_count`; state indices are positions of the states vector (A-idx)"
         return None, False, ""
     if nm in ("unwrap", "expect") and p.startswith(("std::option::Option", "std::result::Result")):
@@ -393,17 +401,17 @@ def discharge(mir, cx, fn, ex, cls, kind, bb, obj, desc, args, tests):
             return "D-ntref", cx.ntref_ok[0] and cx.table_cols_ok[0], "nonterminal references are defined nonterminals (%s); table columns are all nonterminals (%s)" % (cx.ntref_ok[1], cx.table_cols_ok[1])
         if re.match(r"^HashMap::get\(param1(\.0)?\.\w+, .*\.name\)$", a0) or re.match(r"^HashMap::get\(param1(\.0)?\.\w+, param2\.dollarless_name\)$", a0):
             return "D-tref", cx.tref_ok[0] and cx.method_map_ok[0], "method-name map is built from all terminal variants (%s); references are defined terminals (%s)" % (cx.method_map_ok[1], cx.tref_ok[1])
-        if re.match(r"^TerminalEnum::get_type\(param\d+(\.\w+)*\.terminal_enum, ", a0):
+        if re.match(r"^%s\(param\d+(\.\w+)*\.terminal_enum, " % cx.roles.sp("terminal_get_type"), a0):
             return "D-tref", cx.tref_ok[0] and cx.get_type_ok[0], "get_type searches all terminal variants by full name (%s); references are defined terminals (%s)" % (cx.get_type_ok[1], cx.tref_ok[1])
-        if re.match(r"^Machine::get_shift_dest\(param1\.machine, param\d+, param\d+\)$", a0):
+        if re.match(r"^%s\(param1\.machine, param\d+, param\d+\)$" % cx.roles.sp("machine_shift_dest"), a0):
             return "D-shiftdest", True, "every terminal right of a dot has a transition from its state (A-trans: the worklist expands every state after its last growth)"
         return None, False, ""
     if kind == "index":
         a0, a1 = args[0], args[1] if len(args) > 1 else ""
         if "str" in p and "Range" in a1:
-            if f == "tokenize.rs":
+            if cx.roles.tokenizer_file() is not None and fn.file == cx.roles.tokenizer_file():
                 return "D-slice", cx.c08_ok, "tokenizer indices are char boundaries with start <= end <= len (C08 R-C08-table/-adv): %s" % cx.c08_why
-            if re.match(r"^param2$", a0) and "start(" in a1 and "content_len(" in a1:
+            if re.match(r"^param2$", a0) and cx.roles.token_start is not None and cx.roles.token_len is not None and short_path(cx.roles.token_start.path) + "(" in a1 and short_path(cx.roles.token_len.path) + "(" in a1:
                 return "D-slice", cx.c08_ok and cx.c09_ok, "error span = token start/length as stored by the tokenizer (C09 R-C09-span, C08): %s %s" % (cx.c09_why, cx.c08_why)
             return None, False, ""
         if is_symbol_accessor(fn):
@@ -415,7 +423,7 @@ def discharge(mir, cx, fn, ex, cls, kind, bb, obj, desc, args, tests):
             return "D-stateidx", cx.stateidx_ok[0], "index updater is a permutation of the state positions (A-idx): " + cx.stateidx_ok[1]
         if re.search(r"\.rules$", a0) and (re.match(r"^param\d+$", a1) or re.match(r"^\([\w.]+ as Original\)\.0$", a1)):
             return "D-ruleidx", cx.ruleidx_ok[0], "rule indices are produced only by enumerate over the same rule list: " + cx.ruleidx_ok[1]
-        if re.search(r"\.(actions|gotos)$", a0) and re.match(r"^Table::(action|goto)_index\(param1, ", a1):
+        if re.search(r"\.(actions|gotos)$", a0) and re.match(r"^(%s|%s)\(param1, " % (cx.roles.sp("table_action_index"), cx.roles.sp("table_goto_index")), a1):
             return "D-tableidx", True, "index computed by the guarded index function (state < state_count checked there, column < width); table length = states x width by construction (A-table)"
         m = re.match(r"^(Iterator::collect\(.*\)), const\(0_usize\)$", "%s, %s" % (a0, a1))
         if m:
@@ -430,13 +438,16 @@ def discharge(mir, cx, fn, ex, cls, kind, bb, obj, desc, args, tests):
 
 
 def is_symbol_accessor(fn):
-    return fn.name == "get_symbol_ident" or (fn.impl is not None and fn.impl["self_ty"]["head"].endswith("::Fieldset") and any(c.rpath in PANIC_FNS for c in fn.calls()))
+    """(fieldset, position) -> symbol: by signature (roles.symbol_accessor), or any Fieldset method that can panic"""
+    sig = fn.impl is not None and not fn.impl.get("trait") and fn.impl["self_ty"]["head"].endswith("ast::Fieldset") and len(fn.inputs) == 2 and fn.inputs[1].get("s") == "usize" and "IdentOrTerminalIdent" in (fn.output or {}).get("s", "")
+    return sig or (fn.impl is not None and fn.impl["self_ty"]["head"].endswith("::Fieldset") and any(c.rpath in PANIC_FNS for c in fn.calls()))
 
 
 # ------------------------------------------------------------------ establishing rules
 
 def establish(mir, ctx, res):
     cx = Ctx()
+    cx.roles = roles_of(mir)
     EST = "R-C07-establish"
     res.rule(EST, "establishing rules of the invariants the discharge rules rely on (each evaluated on this run): C08/C09/C18 verdicts, R-C10-kind, R-C07-ntkeys, who-constructs rules for state/rule indices and dollarless positions, the dot/length guard of the symbol accessor, completeness of the terminal method map and table columns")
     # generated parser + C09
@@ -586,7 +597,7 @@ def check_who_constructs(mir, res, rule, tyname):
                     if e == "param2" and fn.kind == "Closure":
                         parent = mir.fns.get(fn.parent)
                         psrc = canon(Exprs(parent).local(0)) if parent else ""
-                        good = bool(re.search(r"Range::Range\{const\(0_usize\), Table::state_count\(", psrc)) or bool(re.search(r"Iterator::enumerate\(.*\.states", psrc))
+                        good = bool(re.search(r"Range::Range\{const\(0_usize\), %s\(" % roles_of(mir).sp("table_state_count"), psrc)) or bool(re.search(r"Iterator::enumerate\(.*\.states", psrc))
                         from ..mir import closure_loop_context, lift_closure_canon
                         cctx = closure_loop_context(mir, fn)
                         if not good and cctx is not None:
@@ -624,9 +635,10 @@ def check_rule_index(mir, res, rule):
                         parent = mir.fns.get(fn.parent)
                         if parent:
                             src = canon(Exprs(parent).local(0))
-                            good = "get_rule_indices_for_nonterminal" in src
+                            RI = roles_of(mir).rule_indices_for_nonterminal
+                            good = RI is not None and short_path(RI.path) + "(" in src
                             if good:
-                                prod = [g for g in mir.fns.values() if g.name == "get_rule_indices_for_nonterminal"]
+                                prod = [RI]
                                 psrc = canon(Exprs(prod[0]).local(0)) if len(prod) == 1 else ""
                                 good = bool(re.search(r"Iterator::enumerate\(slice::iter\(param1\.rules\)\)", psrc))
                                 src = psrc
@@ -731,7 +743,7 @@ def check_method_map(mir, res, rule):
 
 
 def check_get_type(mir, res, rule):
-    g = [f for f in mir.fns.values() if f.name == "get_type" and f.impl and f.impl["self_ty"]["head"].endswith("::TerminalEnum")]
+    g = [roles_of(mir).terminal_get_type] if roles_of(mir).terminal_get_type is not None else []
     if len(g) != 1:
         return False, "get_type not found"
     e = canon(Exprs(g[0]).local(0))
